@@ -60,7 +60,7 @@ PROPS = {
             "explanation": "proof: after every statement a bounded flow holds fewer than frame_size rows (after_each clauses of the stream_frames loops, TripleStream.triple/QuadStream.quad/GraphStream.graph), a frame is yielded in the iteration that produced it, the requested frame_size reaches the flow; parser: one lazy iterable per frame, frames read one at a time. Bounded: pull-counting input generators and byte sources that stall after every frame boundary.",
             "note": "Temporal interleaving is argued from generator semantics (yield suspends); the stalling-source experiment is bounded."},
     "C12": {"level": "other", "technique": TECH_M, "assumptions": COMMON + ["threads: CPython memory safety, no hidden shared state inside protobuf/rdflib"],
-            "explanation": "proof: everything a stream or decoder mutates later is allocated per instance in __init__ (fresh-object clauses), the caller's options object is not written (frame), and no function under contract writes module- or class-level state (the engine rejects such writes); bounded: alone vs interleaved vs threads vs hash seeds.",
+            "explanation": "proof: everything a stream, term encoder or decoder mutates later is allocated per instance in __init__ (fresh-object clauses), the caller's options object is not written (frame); package-wide frame condition, one obligation per function of the tree (215), decided syntactically from the AST: no function writes module- or class-level state and no class-level mutable default is mutated through an instance (registration with external registries in the listed functions excepted); bounded: alone vs interleaved vs threads vs hash seeds.",
             "note": "Concurrency and hash-seed independence are outside this technique; only allocation/frame facts are proved."},
     "C13": {"level": "proof", "technique": TECH_P, "assumptions": COMMON + [A_PROTO, A_NOOPT],
             "explanation": "per-function contracts on options.py, encode_options, options_from_frame (field-by-field identity, exact raise conditions from the spec's compatibility table), Stream.enroll/Stream.__init__ (header carries the configuration) and the header_roundtrip lemma composing them",
